@@ -189,6 +189,8 @@ func c05Run(c *Ctx) {
 		layers = append(layers, sweepLayer{"L2", GenOpts{OneGate: true, LeafSet: 2, Slots: []int{0, 4, 12, 19}}, 2, outerF[:2]})
 	}
 	layers = append(layers, sweepLayer{"scale", GenOpts{Scale: true, ScaleThorough: c.Thorough()}, 0, outerF[:2]})
+	// search stages as the root: up to 2 (thorough 3) non-default search operators BELOW $search / $searchMeta
+	layers = append(layers, rootedLayers(c.Thorough(), outerF[:2])...)
 	first := map[string]string{}
 	var corpus []string
 	sweep(c, layers, func(sc *sweepCase) bool {
@@ -442,7 +444,7 @@ func c05Post(c *Ctx, m *Part) {
 func init() {
 	register(&PropDef{
 		ID: "C05", Level: "exploration",
-		Rule:        "lines of G inside the claim at 0 deviations (all gates x containers x slots x 23 leaf kinds), <=1 non-default production over the full vocabulary and <=2 (quick: 4 slots; thorough: all) x {replacement alphabet: default, quotes+backslash, non-ASCII+astral, with space, empty, '<&>' with newline and tab (thorough: + custom, e-mail-shaped, '$'-leading, date-looking)} x N x B plus field-name / namespace / IP modes; at every SECRET leaf that still exists in the output the value must be valid for the leaf's class ($date: RFC 3339 instant; $oid: 24 hex digits; $binary.base64: strict base64, subType untouched; e-mail-shaped: WHATWG e-mail production; other strings: decoded text == replacement exactly; numbers under N: literal 0; booleans under B: false), must not be the original, and must be one constant per class across lines, flag sets and worker processes; plus one run of the pristine CLI per flag set over the 0-deviation corpus compared line by line with the in-process output (argv -> output). distinct = distinct input lines with at least one SECRET leaf" + scaleRule + "; collision groups: 8 texts (short and long) x every ordered pair of contexts {plain, $eq, $in, $oid, $date, $binary} of different class x 4 placements x {two field names, one field name}",
+		Rule:        "lines of G inside the claim at 0 deviations (all gates x containers x slots x 23 leaf kinds), <=1 non-default production over the full vocabulary and <=2 (quick: 4 slots; thorough: all) x {replacement alphabet: default, quotes+backslash, non-ASCII+astral, with space, empty, '<&>' with newline and tab (thorough: + custom, e-mail-shaped, '$'-leading, date-looking)} x N x B plus field-name / namespace / IP modes; at every SECRET leaf that still exists in the output the value must be valid for the leaf's class ($date: RFC 3339 instant; $oid: 24 hex digits; $binary.base64: strict base64, subType untouched; e-mail-shaped: WHATWG e-mail production; other strings: decoded text == replacement exactly; numbers under N: literal 0; booleans under B: false), must not be the original, and must be one constant per class across lines, flag sets and worker processes; plus one run of the pristine CLI per flag set over the 0-deviation corpus compared line by line with the in-process output (argv -> output). distinct = distinct input lines with at least one SECRET leaf" + scaleRule + "; collision groups: 8 texts (short and long) x every ordered pair of contexts {plain, $eq, $in, $oid, $date, $binary} of different class x 4 placements x {two field names, one field name}" + rootedRule,
 		Assumptions: []string{"the label table of G (GRAMMAR.md) is the trusted base", "encrypt and selective modes are outside the property", "a SECRET leaf that no longer exists at its position is C03's concern"},
 		Run:         c05Run, Post: c05Post,
 	})
